@@ -1,3 +1,4 @@
+import CM.Model.Deps
 /-
 Model of the framework that drives codemods:
 `codemodder.codemodder.run / apply_codemods / find_semgrep_results`,
@@ -193,8 +194,8 @@ def applyWrites (cfg : Cfg) (w : World) (rs : List (Path × FileRes)) : World :=
 
 /-- `DependencyWriter.write` on one store: `add` filters and records (also in dry-run), `add_to_file` edits -/
 def storeWrite (cfg : Cfg) (w : World) (s : Store) (deps : List String) : Store × Option (World × ChangeSet) :=
-  let new := deps.filter fun d => !s.declared.contains d
-  let s' := { s with declared := s.declared ++ new }
+  let (declared', new) := CM.Deps.add s.declared deps
+  let s' := { s with declared := declared' }
   if new.isEmpty then (s', none)
   else match w.get s.path with
     | none => (s', none)
